@@ -168,8 +168,8 @@ Proof.
     destruct (glc (x :: g)) as [|c l] eqn:G; [discriminate|]. now rewrite T.
 Qed.
 
-Lemma release_raise_sim log : forall q q', release_raise q log = Some q' ->
-  owed_raise (map glc q) log = Some (map glc q') /\ filter is_lc log = log.
+Lemma release_raise_sim h log : forall q q', release_raise h q log = Some q' ->
+  owed_raise h (map glc q) log = Some (map glc q') /\ filter is_lc log = log.
 Proof.
   induction log as [|c log IH]; intros q q'; cbn [release_raise]; [discriminate|].
   destruct (lc_kind (c_k c) && c_w c) eqn:C; [|discriminate].
@@ -179,7 +179,7 @@ Proof.
   assert (Ec : c = call (c_k c) (c_i c) (c_a c)) by (destruct c; cbn in *; now subst).
   assert (L : is_lc c = true) by (unfold is_lc; destruct (c_k c); auto; discriminate).
   rewrite <- Ec in T. cbn [owed_raise filter]. rewrite L, T.
-  destruct (raises (c_i c)).
+  destruct (h (c_i c)).
   - destruct log; [|discriminate]. intros [= <-]. auto.
   - intros H. destruct (IH _ _ H) as [H1 H2]. rewrite H1, H2. auto.
 Qed.
@@ -194,12 +194,12 @@ Proof.
     change (c :: g' ++ concat gs) with ((c :: g') ++ concat gs). now apply Permutation_app_tail.
 Qed.
 
-Lemma owed_raise_perm lc : forall gs gs', owed_raise gs lc = Some gs' ->
+Lemma owed_raise_perm h lc : forall gs gs', owed_raise h gs lc = Some gs' ->
   Permutation (concat gs) (lc ++ concat gs').
 Proof.
   induction lc as [|c lc IH]; intros gs gs'; cbn [owed_raise]; [discriminate|].
   destruct (otake c gs) as [g1|] eqn:T; [|discriminate]. apply otake_perm in T.
-  destruct (raises (c_i c)).
+  destruct (h (c_i c)).
   - destruct lc; [|discriminate]. intros [= <-]. exact T.
   - intros H. eapply perm_trans; [exact T|]. cbn [app]. apply perm_skip. now apply IH.
 Qed.
@@ -930,7 +930,7 @@ Qed.
 
 Lemma qcheck2_sim p s ss q : R s ss -> Jt p s -> qcheck s q = true -> qcheck2 p ss q = true.
 Proof.
-  intros HR J. destruct q as [e r|l|e l|i r]; cbn [qcheck qcheck2]; auto.
+  intros HR J. destruct q as [e r|l|e l|i r|e ty r|e ty r|ty l]; cbn [qcheck qcheck2]; auto.
   now rewrite (reg_attached_b p s ss i HR J).
 Qed.
 
@@ -1063,12 +1063,20 @@ Proof.
       destruct (o_exc ob =? 3).
       * (* a postponed callback raised: the rest stays in the queue / owed *)
         destruct (selfl _); [|discriminate].
-        destruct (release_raise _ _) as [q'|] eqn:RR; [|discriminate]. injection OP as <-.
+        destruct (release_raise _ _ _) as [q'|] eqn:RR; [|discriminate]. injection OP as <-.
         cbn [queue set_enabled] in RR. apply release_raise_sim in RR. destruct RR as [RR FL].
         rewrite FL, <- QW, RR. exists (map glc q'). split; [reflexivity|].
         split; [|split; reflexivity].
         eapply Jt_view; [| | | |exact J0]; reflexivity.
-      * destruct (o_exc ob =? 0); [|discriminate]. cbn [andb] in OP.
+      * destruct (o_exc ob =? 4).
+        { (* a postponed callback disabled dispatching: the release stopped there *)
+          destruct (selfl _); [|discriminate].
+          destruct (release_raise _ _ _) as [q'|] eqn:RR; [|discriminate]. injection OP as <-.
+          cbn [queue set_enabled] in RR. apply release_raise_sim in RR. destruct RR as [RR FL].
+          rewrite FL, <- QW, RR. exists (map glc q'). split; [reflexivity|].
+          split; [|split; reflexivity].
+          eapply Jt_view; [| | | |exact J0]; reflexivity. }
+        destruct (o_exc ob =? 0); [|discriminate]. cbn [andb] in OP.
         destruct (match_groups _ _) eqn:MG; [|discriminate]. cbn [andb] in OP.
         destruct (forallb _ (o_log ob)); [|discriminate]. injection OP as <-.
         apply (match_groups_filter is_lc) in MG. rewrite map_map in MG.
@@ -1253,10 +1261,10 @@ Proof.
     assert (N : notifs p s (SetEnabled true) ob = []) by reflexivity. rewrite N in *.
     assert (C : concat (if en s then owed else owed ++ [[]]) = concat owed ++ []).
     { destruct (en s); [now rewrite app_nil_r|]. rewrite concat_app. reflexivity. }
-    destruct (o_exc ob =? 3).
-    + apply owed_raise_perm in H. now rewrite C in H.
-    + destruct (match_groups _ _) eqn:MG; [|discriminate]. injection H as <-. apply M in MG.
-      now rewrite C in MG.
+    destruct (o_exc ob =? 3); [apply owed_raise_perm in H; now rewrite C in H|].
+    destruct (o_exc ob =? 4); [apply owed_raise_perm in H; now rewrite C in H|].
+    destruct (match_groups _ _) eqn:MG; [|discriminate]. injection H as <-. apply M in MG.
+    now rewrite C in MG.
 Qed.
 
 (* all events of a history / all lifecycle calls observed in it *)
@@ -1286,12 +1294,12 @@ Qed.
 (* a release delivers the postponed calls operation after operation *)
 Lemma release_in_order p s owed ob s' owed' :
   step2 p (s, owed) (SetEnabled true) ob = Some (s', owed') -> en s = false ->
-  (o_exc ob =? 3) = false ->
+  (o_exc ob =? 3) = false -> (o_exc ob =? 4) = false ->
   owed' = [] /\ exists chunks, filter is_lc (o_log ob) = concat chunks /\
                 Forall2 (@Permutation cb) chunks (owed ++ [[]]).
 Proof.
-  intros H EN X. apply step2_parts in H. destruct H as (_ & LC & _). unfold lc_check in LC.
-  rewrite EN, X in LC. destruct (match_groups _ _) eqn:MG; [|discriminate]. injection LC as <-.
+  intros H EN X X4. apply step2_parts in H. destruct H as (_ & LC & _). unfold lc_check in LC.
+  rewrite EN, X, X4 in LC. destruct (match_groups _ _) eqn:MG; [|discriminate]. injection LC as <-.
   split; [reflexivity|]. now apply match_groups_chunks.
 Qed.
 
@@ -1330,10 +1338,22 @@ Qed.
    the raising call; everything else is still owed *)
 Lemma release_interrupted p s owed ob s' owed' :
   step2 p (s, owed) (SetEnabled true) ob = Some (s', owed') -> (o_exc ob =? 3) = true ->
-  owed_raise (if en s then owed else owed ++ [[]]) (filter is_lc (o_log ob)) = Some owed' /\
+  owed_raise raises (if en s then owed else owed ++ [[]]) (filter is_lc (o_log ob)) = Some owed' /\
   Permutation (concat owed) (filter is_lc (o_log ob) ++ concat owed').
 Proof.
   intros H X. apply step2_parts in H. destruct H as (_ & LC & _). assert (LC' := LC).
   unfold lc_check in LC. rewrite X in LC. split; [exact LC|].
+  apply lc_check_conserves in LC'. now rewrite app_nil_r in LC'.
+Qed.
+
+(* a release stopped by a callback that disabled dispatching again: the same,
+   with the disabling call last *)
+Lemma release_stopped p s owed ob s' owed' :
+  step2 p (s, owed) (SetEnabled true) ob = Some (s', owed') -> (o_exc ob =? 4) = true ->
+  owed_raise disables (if en s then owed else owed ++ [[]]) (filter is_lc (o_log ob)) = Some owed' /\
+  Permutation (concat owed) (filter is_lc (o_log ob) ++ concat owed').
+Proof.
+  intros H X. apply step2_parts in H. destruct H as (_ & LC & _). assert (LC' := LC).
+  unfold lc_check in LC. apply Z.eqb_eq in X. rewrite X in LC. cbn in LC. split; [exact LC|].
   apply lc_check_conserves in LC'. now rewrite app_nil_r in LC'.
 Qed.
